@@ -175,6 +175,10 @@ def run(ctx):
                 cfg = {"tail": "timeout", "to": 2000, "fail": rnd.choice([0, 0, 1, 2])}
                 sessions.append((cfg, scr[nm], ops))
                 meta.append((nm, ops))
+            if len(ops) <= 2 or rnd.random() < 0.15:
+                # the transport takes every frame in pieces (close frames and close replies included)
+                sessions.append(({"tail": "timeout", "to": 2000, "acc": rnd.choice([[1], [3, 1, 2], [4, 4], [2, 5, 1]])}, scr[nm], ops))
+                meta.append((nm, ops))
             if (len(ops) <= 2 and nm in ("eof", "data-eof", "close", "reset")) or rnd.random() < 0.1:
                 # a non-blocking transport (timeout 0): "no data now" is EAGAIN, end of stream is still the loss of the connection
                 sessions.append(({"tail": "timeout", "to": 0}, scr[nm], ops))
